@@ -396,6 +396,20 @@ func generate(ctx *core.Ctx) []*Program {
 			}
 		}
 	}
+	for _, k := range numGlobals {
+		for _, f := range numForms {
+			for _, parsed := range []bool{false, true} {
+				for _, w := range wrappers {
+					if w.name == "top" || w.name == "if" || w.name == "let-content" || (ctx.Thorough() && !w.msg) {
+						if p, ok := BuildNumGlobal(id, k, f, parsed, w); ok {
+							progs = append(progs, p)
+							id++
+						}
+					}
+				}
+			}
+		}
+	}
 	return progs
 }
 
@@ -696,7 +710,7 @@ func judge(pool *jsrun.Pool, cs []*compiled, f string, st *stats) ([]*Failure, e
 			}
 		} else {
 			for _, fn := range resp.Functions {
-				if strings.HasPrefix(fn, p.NS+".") {
+				if strings.HasPrefix(fn, rootOf(p.NS)+".") {
 					got = append(got, fn)
 				}
 			}
